@@ -111,6 +111,21 @@ def p_datum(v):
     return split_val(v)[0]
 
 
+def p_raises_odd(v):
+    """raises for odd numbers (used inside Selector(..., raise_on_error=False): an error counts as not selected)"""
+    d = split_val(v)[0]
+    if _num(d) and d % 2:
+        raise ValueError("odd")
+    return True
+
+
+def p_raises_ctx(v):
+    """raises KeyError for values without context"""
+    return split_val(v)[1]["a"] is not None if split_val(v)[1] is not None else {}["a"]
+
+
+RAISING_PREDS = {"raises_odd": p_raises_odd, "raises_ctx": p_raises_ctx}
+
 PREDS = {"even": p_even, "pos": p_pos, "none": p_none, "all": p_all,
          "has_ctx": p_has_ctx, "mod3": p_mod3, "datum": p_datum}
 
@@ -176,6 +191,10 @@ def build(r):
         return Variable(r[1], GETTERS[r[2]], type=r[3], run=2015, fill="no", compute=0, request=None, fill_into=1)
     if k == "filter":
         return Filter(PREDS[r[1]])
+    if k == "filter_roe":
+        # a ready Selector that counts an error of its predicate as "not selected"
+        from lena.flow import Selector
+        return Filter(Selector(RAISING_PREDS[r[1]], raise_on_error=False))
     if k == "slice":
         return Slice(*r[1:])
     if k == "count":
@@ -330,6 +349,7 @@ def fillable_recipes():
         st.builds(lambda n, g, t: ["var", n, g, t], st.sampled_from(["v1", "v2"]),
                   st.sampled_from(sorted(GETTERS)), st.sampled_from(["", "ta", "tb"])),
         st.builds(lambda p: ["filter", p], st.sampled_from(sorted(PREDS))),
+        st.builds(lambda p: ["filter_roe", p], st.sampled_from(sorted(RAISING_PREDS))),
         st.builds(lambda a: ["slice"] + a, nonneg_slice_args()),
         st.builds(lambda p, xs: ["runif", p, xs], st.sampled_from(sorted(PREDS)),
                   st.lists(st.builds(lambda f: ["map", f], st.sampled_from(sorted(FUNCS))),
